@@ -89,9 +89,26 @@ AFFIX = [(32, 126)]
 def make_command():
     def fn(en):
         nlines = 1 + en.choice("nlines", 2)
-        kind = ["single-phrase", "multi-phrase", "extra-phrase", "clean"][en.choice("kind", 4)]
+        kind = ["single-phrase", "multi-phrase", "extra-phrase", "clean", "straddle"][en.choice("kind", 5)]
         pre = sstr.fresh_str_upto(en, "pre", 2, AFFIX)
         post = sstr.fresh_str_upto(en, "post", 2, AFFIX)
+        if kind == "straddle":
+            # a phrase whose words are split over two consecutive lines is in no line: the output is valid
+            phrase = [MULTI[0], "custom failure text", SINGLE[0]][en.choice("phrase", 3)]
+            cut = phrase.index(" ")
+            body = mixed_case(en, "ph", phrase)
+            lines = [cat(pre, body[:cut]), cat(body[cut + 1:], post)]
+            which = ["plain", "extra"][en.choice("parser", 2)]
+            case = lambda mv: {"kind": "command", "lines": [mv.str(x) for x in lines], "phrase_kind": kind, "parser": which, "history": False}  # noqa
+            en.note_sample(case)
+            cls = Cmd if which == "plain" else CmdExtra
+            try:
+                obj = cls(ctx(lines))
+                err = None
+            except ContentException as ex:
+                obj, err = None, ex
+            en.must_hold(err is None, "command-validation", case, detail="an output in which no line contains a failure phrase (its words are on two lines) was rejected")
+            return
         if kind == "single-phrase":
             phrase = SINGLE[en.choice("phrase", len(SINGLE))]
             body = mixed_case(en, "ph", phrase)
@@ -291,6 +308,37 @@ def search_run(lines, query, chk, num, reverse, entry, has):
     return got, hits
 
 
+# ------------------------------------------------------------------ the same searches on real text, keywords with regex metacharacters
+META_TERMS = ["[E]", "a.b", "x|y", "c$", "o(", "a*", "^a", "\\d"]
+SEARCH_ALPHA = "[]E.ab|xyc$o(*^\\d1"
+
+
+def make_search_text(nlines, maxlen):
+    def fn(en):
+        nq = 1 + en.choice("nterms", 2)
+        qi = [en.choice("term%d" % j, len(META_TERMS)) for j in range(nq)]
+        if nq == 2 and qi[0] == qi[1]:
+            raise core.Abort()
+        terms = [META_TERMS[i] for i in qi]
+        query = terms[0] if nq == 1 and en.flag("as_string") else list(terms)
+        chk = [all, any][en.choice("check", 2)]
+        entry = ["get", "keep_scan", "last_scan", "token_scan"][en.choice("entry", 4)]
+        n = 1 + en.choice("n", nlines)
+        lines = [sstr.fresh_str(en, "s%d" % i, 1 + en.choice("len%d" % i, maxlen), SEARCH_ALPHA) for i in range(n)]
+        case = lambda mv: {"kind": "search-text", "lines": [mv.str(x) for x in lines], "query": query, "check": chk.__name__, "entry": entry}  # noqa
+        en.note_sample(case)
+        T = lambda f: f if isinstance(f, bool) else truth(f)  # noqa
+        try:
+            got, exp = search_run(lines, query, chk, None, False, entry, lambda i, t: T(f_contains(lines[i], t)))
+            err = None
+        except Exception as ex:  # noqa
+            got, exp, err = None, None, ex
+        en.must_hold(err is None, "text-search", case, detail="searching for %r raised %r" % (query, err))
+        if err is None:
+            en.must_hold(got == exp, "text-search", case, detail="%s(%r, check=%s) returned %r; the lines containing the keywords literally are %r" % (entry, query, chk.__name__, got, exp))
+    return fn
+
+
 # ------------------------------------------------------------------ get_after (finite domain; strptime / datetime run natively)
 INSTANTS = ["Jan  1 00:30:00", "Jan  1 02:00:00", "Dec 31 22:00:00", "Dec 31 23:30:00", "Mar 10 11:00:00", "Mar 10 13:00:00", "Feb 28 23:00:00", "Feb 29 12:00:00"]
 THRESHOLDS = [(2017, 3, 10, 12, 0), (2020, 1, 1, 1, 0), (2020, 12, 31, 23, 0), (2019, 12, 31, 23, 0), (2021, 1, 1, 0, 45), (2020, 2, 28, 12, 0)]
@@ -404,6 +452,10 @@ def obligations(tier):
                    desc="get / in / keep_scan / last_scan / token_scan on lines whose containment of each term is a symbolic boolean",
                    bounds={"lines": 4 if thorough else 3, "terms": 3 if thorough else 2, "queries": "one term / list of terms", "check": ["all", "any"], "num": [None, 0, 1, 2], "reverse": "both"},
                    stubs=["a line is an object answering `term in line` with a symbolic boolean"], encoded=enc[4:10], budget_s=900 if thorough else 150, replay="search", check_sample=True),
+        Obligation("O3b-text-search-text", make_search_text(2, 3 if thorough else 2), ["text-search"],
+                   desc="the same searches on real text: keywords with regex metacharacters, symbolic lines over those characters; a line matches when it contains the keyword(s) literally",
+                   bounds={"keywords": META_TERMS, "query": "one keyword (string or list) or two", "check": ["all", "any"], "lines": "1-2 symbolic strings of 1-%d chars over %r" % (3 if thorough else 2, SEARCH_ALPHA),
+                           "entries": ["get", "keep_scan", "last_scan", "token_scan"]}, encoded=enc[4:10], budget_s=600 if thorough else 120, replay="search", check_sample=True),
         Obligation("O4-time-search", make_after(4 if thorough else 3), ["time-search"],
                    desc="get_after on logs whose lines carry one of 8 instants (around a year boundary, the 330-day windows and a leap day) or are continuation lines; with and without year",
                    bounds={"lines": 4 if thorough else 3, "instants": INSTANTS, "thresholds": [str(t) for t in THRESHOLDS]},
@@ -452,6 +504,14 @@ def _native(case):
         if mode == "nondoc":
             return [] if isinstance(err, ParseException) else ["non-document %r gave %r / %r" % (lines, got, err)]
         return [] if isinstance(err, SkipComponent) else ["empty document %r gave %r / %r" % (lines, got, err)]
+    if kind == "search-text":
+        lines, query = case["lines"], case["query"]
+        chk = all if case["check"] == "all" else any
+        try:
+            got, exp = search_run(lines, query, chk, None, False, case["entry"], lambda i, t: t in lines[i])
+        except Exception as ex:  # noqa
+            return ["searching for %r raised %r" % (query, ex)]
+        return [] if got == exp else ["%s(%r, check=%s) returned %r; the lines containing the keywords literally are %r" % (case["entry"], query, case["check"], got, exp)]
     if kind == "search":
         M = case["M"]
         n = len(M)
